@@ -14,7 +14,8 @@
 (* RE-COMPUTED here from the shapes (Outcome!ExpectClasses); COVER lines name the error classes     *)
 (* that were reported where the spec expects them (the driver's vacuity guard: every class of the   *)
 (* pinned catalogue, and every failed-call class by the call family alone), the reported names      *)
-(* that are not in the pinned catalogue, and the calls with no fault that got a binding error.      *)
+(* that are not in the pinned catalogue, the calls with no fault that got a binding error and the    *)
+(* calls with a fault on whose line nothing was reported (both are C13's subject: logged only).       *)
 EXTENDS Outcome, IOUtils, TLCExt
 
 Cases == JsonDeserialize(IOEnv.TRACE_FILE)
@@ -44,6 +45,12 @@ Spurious(c) ==
   ELSE {gj \in {x \in (DOMAIN c.plan.group) \X (1 .. 64) : x[2] \in DOMAIN c.plan.group[x[1]].calls} :
           /\ BindingFaults(c.plan.group[gj[1]].c, CallOf(c.plan.group[gj[1]].calls[gj[2]])) = {}
           /\ \E cl \in CallClasses \ {"wrong-arg-types"} : Reported(c, cl, c.plan.group[gj[1]].calls[gj[2]].line)}
+(* calls with a binding fault on whose line nothing at all was reported (a missed error; logged) *)
+Silent(c) ==
+  IF c.plan.fam # "call" \/ c.crashed THEN {}
+  ELSE {gj \in {x \in (DOMAIN c.plan.group) \X (1 .. 64) : x[2] \in DOMAIN c.plan.group[x[1]].calls} :
+          /\ BindingFaults(c.plan.group[gj[1]].c, CallOf(c.plan.group[gj[1]].calls[gj[2]])) # {}
+          /\ ~\E e \in DOMAIN c.errs : c.errs[e][2] = c.plan.group[gj[1]].calls[gj[2]].line}
 Unknown(c) == {c.errs[e][1] : e \in DOMAIN c.errs} \ ErrorClasses
 
 TInit == i = 1 /\ TLCSet(1, FALSE) /\ inp = 0 /\ st = 0 /\ errs = 0 /\ muts = 0 /\ hist = 0 /\ plan = 0
@@ -57,12 +64,13 @@ Ok == i <= Len(Cases) =>
             f == Fails(c)
             h == Hit(c)
             u == Unknown(c)
-            s == Spurious(c) IN
+            s == Spurious(c)
+            q == Silent(c) IN
           /\ f = {} \/ PrintT(<<"BAD", ToJson([i |-> i, fails |-> f,
                                                attr |-> Attribution(f, c.anntrail, Pairs(c.errs))])>>)
-          /\ (h = {} /\ u = {} /\ s = {})
+          /\ (h = {} /\ u = {} /\ s = {} /\ q = {})
              \/ PrintT(<<"COVER", ToJson([i |-> i, fam |-> c.plan.fam, hit |-> h, unknown |-> u,
-                                         spurious |-> Cardinality(s)])>>)
+                                         spurious |-> Cardinality(s), silent |-> q])>>)
 
 Done == TLCGet(1)
 =============================================================================
